@@ -717,9 +717,9 @@ def handle (args : List String) : Option Out :=
     let hot := (a.lists.map (fun kl => kl.2.hotCount)).sum
     let cold := (a.lists.map (fun kl => kl.2.coldCount)).sum
     let cb := (a.lists.map (fun kl => (kl.2.cold.map CChunk.memorySize).sum)).sum
-    pure { model := match usub a.edgeCount a.deletedCount with
-      | .ok act => s!"{hot};{cold};{cb};{a.edgeCount};{act};{a.lists.length}"
-      | _ => "panic" }
+    -- `active_edge_count` saturates since 7783d93 (a tombstone may precede its insertion)
+    let act := a.edgeCount - a.deletedCount
+    pure { model := s!"{hot};{cold};{cb};{a.edgeCount};{act};{a.lists.length}" }
   -- ── succinct bit vector ──
   | ["sbv.info", p] => do
     let p ← parseBvProg p
